@@ -58,7 +58,7 @@ fn build_points(class: PointClass, raw: &[Vec<i16>], l: i32, m: usize) -> Vec<Ve
     let n = raw.len();
     let first = |j: usize| raw.get(j.min(n.saturating_sub(1))).cloned().unwrap_or_default();
     match class {
-        PointClass::Lattice | PointClass::Bytes | PointClass::AdjacentFloats => raw.iter().map(|r| row_lat(r, l)).collect(),
+        PointClass::Lattice | PointClass::Bytes | PointClass::AdjacentFloats | PointClass::LargeStructured => raw.iter().map(|r| row_lat(r, l)).collect(),
         PointClass::AllEqual => {
             let p = row_lat(&first(0), l);
             raw.iter().map(|_| p.clone()).collect()
@@ -107,6 +107,8 @@ fn build_points(class: PointClass, raw: &[Vec<i16>], l: i32, m: usize) -> Vec<Ve
     }
 }
 
+pub const HUGE_K: [usize; 5] = [1usize << 20, ((1u64 << 40) & (usize::MAX as u64)) as usize, usize::MAX / 2, usize::MAX - 1, usize::MAX];
+
 #[derive(Debug, Clone)]
 struct RawQuery {
     kind: u8,
@@ -120,7 +122,7 @@ struct RawQuery {
 }
 
 fn raw_query(dim: usize) -> impl Strategy<Value = RawQuery> {
-    (0u8..12, any::<u16>(), any::<u16>(), vec(any::<i16>(), dim), 0u8..8, any::<u16>(), 0u8..12, any::<u16>())
+    (0u8..12, any::<u16>(), any::<u16>(), vec(any::<i16>(), dim), 0u8..10, any::<u16>(), 0u8..15, any::<u16>())
         .prop_map(|(kind, a, b, coords, kmode, kraw, rmode, rraw)| RawQuery { kind, a, b, coords, kmode, kraw, rmode, rraw })
 }
 
@@ -155,6 +157,9 @@ fn build_query(rq: &RawQuery, points: &[Vec<f64>], dim: usize, l: i32, wrong_len
         0 => 0,
         1 => n,
         2 => n + 1 + idx(rq.kraw, 3),
+        8 => 2 * n,
+        // "k ... beyond n" without bound: no index may size anything by k
+        9 => HUGE_K[idx(rq.kraw, HUGE_K.len()).min(HUGE_K.len() - 1)],
         _ => idx(rq.kraw, n + 4),
     };
     let radius = match rq.rmode {
@@ -163,7 +168,9 @@ fn build_query(rq: &RawQuery, points: &[Vec<f64>], dim: usize, l: i32, wrong_len
         3..=6 => Radius::ToPoint(rq.rraw),
         7..=9 => Radius::Between(rq.rraw),
         10 => Radius::Beyond,
-        _ => Radius::Abs((idx(rq.rraw, 64) as f64) / 4.0),
+        11 => Radius::Abs((idx(rq.rraw, 64) as f64) / 4.0),
+        12 => Radius::ToPointUlps(rq.rraw, (rq.b % 7) as i8 - 3),
+        _ => Radius::ToRankUlps((rq.rraw % 8) as u16, (rq.b % 7) as i8 - 3),
     };
     Query { point, class, k, radius }
 }
@@ -303,7 +310,8 @@ pub fn small_exhaustive(thorough: bool) -> Vec<Case> {
                 let mut queries = vec![];
                 for step in -2i32..=8 {
                     let x = step as f64 / 2.0;
-                    for k in 0..=n + 1 {
+                    let huge: &[usize] = if step == 0 { &HUGE_K } else { &[] };
+                    for k in (0..=n + 1).chain([2 * n]).chain(huge.iter().copied()) {
                         counter += 1;
                         queries.push(Query {
                             point: vec![x],
@@ -457,4 +465,116 @@ pub fn adjacent_strategy() -> impl Strategy<Value = Case> {
                 Case { single, metric, class: PointClass::AdjacentFloats, dim, points, leaf, queries }
             })
     })
+}
+
+// ------------------------------------------------------------------------------------------------
+// large structured point sets (derived from a seed so that the stored case stays small)
+
+#[derive(Debug, Clone, Copy, PartialEq, Eq, serde::Serialize, serde::Deserialize)]
+pub enum LargeShape {
+    /// (t, t, ..) for t = 0..n
+    Diagonal,
+    /// base + t * step * dir with an integer direction and a dyadic step
+    Strip,
+    /// the first n points of a square / cubic integer lattice
+    Lattice,
+    /// coarse lattice of cluster centres (spacing 64) with fine offsets on a 1/16 grid
+    TwoScale,
+}
+
+#[derive(Debug, Clone, serde::Serialize, serde::Deserialize)]
+pub struct LargeCase {
+    pub seed: u64,
+    pub shape: LargeShape,
+    pub n: usize,
+    pub dim: usize,
+    pub single: bool,
+    pub metric: Metric,
+    pub leaf: usize,
+    /// number of queries (all stored points)
+    pub nq: usize,
+    /// batch rows in generated order (false) or shuffled (true)
+    pub shuffled: bool,
+}
+
+/// Expands the description into the explicit case the common oracle judges. Queries are stored points;
+/// radii are the distance to the point of rank 1..=6 moved by -3..=3 ulps (or exactly), k sits around that rank.
+pub fn expand_large(lc: &LargeCase) -> Case {
+    let mut rng = vengine::gen::SplitMix(lc.seed);
+    let n = lc.n.clamp(1, MAX_POINTS);
+    let dim = lc.dim.clamp(1, 4);
+    let mut points: Vec<Vec<f64>> = Vec::with_capacity(n);
+    match lc.shape {
+        LargeShape::Diagonal => {
+            for t in 0..n {
+                points.push(vec![t as f64; dim]);
+            }
+        }
+        LargeShape::Strip => {
+            let steps = [1.0, 0.125, 0.75, 0.5];
+            let step = steps[rng.below(steps.len())];
+            let dir: Vec<f64> = (0..dim).map(|j| if j == 0 { 1.0 } else { (1 + rng.below(3)) as f64 }).collect();
+            let base: Vec<f64> = (0..dim).map(|_| (rng.below(5) * 500) as f64).collect();
+            for t in 0..n {
+                points.push(base.iter().zip(dir.iter()).map(|(b, d)| b + (t as f64) * step * d).collect());
+            }
+        }
+        LargeShape::Lattice => {
+            let side = ((n as f64).powf(1.0 / dim as f64).ceil() as usize).max(1);
+            for t in 0..n {
+                let mut r = t;
+                let mut p = Vec::with_capacity(dim);
+                for _ in 0..dim {
+                    p.push((r % side) as f64);
+                    r /= side;
+                }
+                points.push(p);
+            }
+        }
+        LargeShape::TwoScale => {
+            let clusters = 2 + rng.below(6);
+            let centres: Vec<Vec<f64>> = (0..clusters).map(|_| (0..dim).map(|_| (rng.below(9) as f64 - 4.0) * 64.0).collect()).collect();
+            for _ in 0..n {
+                let c = &centres[rng.below(clusters)];
+                points.push(c.iter().map(|x| x + (rng.below(33) as f64 - 16.0) / 16.0).collect());
+            }
+        }
+    }
+    if lc.shuffled {
+        for i in (1..points.len()).rev() {
+            let j = rng.below(i + 1);
+            points.swap(i, j);
+        }
+    }
+    let nq = lc.nq.clamp(1, 200);
+    let mut queries = Vec::with_capacity(nq);
+    for qi in 0..nq {
+        let i = rng.below(points.len());
+        let rank = 1 + rng.below(6);
+        // mostly "a few ulps above", the regime in which a rounded-up pruning bound loses a point
+        let ulps = [0i8, 1, 1, 2, 3, -1, -2, 0][rng.below(8)];
+        let k = (rank + rng.below(3)).saturating_sub(1);
+        let radius = if qi % 8 == 7 { Radius::ToPoint(rng.below(65536) as u16) } else { Radius::ToRankUlps(rank as u16, ulps) };
+        queries.push(Query { point: points[i].clone(), class: QueryClass::Stored, k, radius });
+    }
+    Case { single: lc.single, metric: lc.metric, class: PointClass::LargeStructured, dim, points, leaf: lc.leaf.max(1), queries }
+}
+
+pub fn large_strategy(nq: usize) -> impl Strategy<Value = LargeCase> {
+    (
+        any::<u64>(),
+        prop_oneof![
+            3 => Just(LargeShape::Diagonal),
+            3 => Just(LargeShape::Strip),
+            2 => Just(LargeShape::Lattice),
+            2 => Just(LargeShape::TwoScale),
+        ],
+        500usize..=2000,
+        2usize..=3,
+        prop_oneof![3 => Just(false), 1 => Just(true)],
+        prop_oneof![6 => Just(Metric::L2), 1 => Just(Metric::L1), 1 => Just(Metric::LInf), 1 => Just(Metric::Lp(3.0))],
+        prop_oneof![Just(1usize), Just(16), Just(16), Just(64)],
+        any::<bool>(),
+    )
+        .prop_map(move |(seed, shape, n, dim, single, metric, leaf, shuffled)| LargeCase { seed, shape, n, dim, single, metric, leaf, nq, shuffled })
 }
